@@ -8,7 +8,6 @@ use tari_bulletproofs_plus::{
     generators::pedersen_gens::PedersenGens,
     range_proof::{RangeProof, VerifyAction},
     range_statement::RangeStatement,
-    traits::Compressable,
 };
 
 use crate::{
